@@ -227,9 +227,13 @@ def _ask(sel, form):
     cfg = hx.real_config(full_handlers=True)
     cfg.set("handlers.dir.DirHandler", "cachetime", 0)
     req = sel.encode("utf-8", "surrogateescape") + (b"\t$" if form == "gopher+dir" else b"") + b"\r\n"
-    w = hx.ListWriter()
-    hx.make_request_handler(hx.BytesReader(req), w, cfg).handle()
-    return w.getvalue()
+    import tempfile
+
+    with tempfile.TemporaryFile() as w:  # a real file: decompressors write to its descriptor
+        hx.make_request_handler(hx.BytesReader(req), w, cfg).handle()
+        w.flush()
+        w.seek(0)
+        return w.read()
 
 
 def _canon(out, prefix):
